@@ -297,8 +297,9 @@ func hashesOf(txns []coin.Transaction) []string {
 // ---------------------------------------------------------------------------
 // delivery of published blocks to followers
 
-func (w *world) submit(t *rapid.T, n *node, sb coin.SignedBlock, what string) bool {
-	wantOK, why := n.m.CheckBlock(&sb)
+// expectAccept: does the reference model say that node n appends sb?
+func (w *world) expectAccept(n *node, sb *coin.SignedBlock) (bool, string) {
+	wantOK, why := n.m.CheckBlock(sb)
 	if wantOK && n.publisher {
 		// an arbitrating node sorts the transactions by fee while checking the block and leaves out those whose fee
 		// it cannot compute (input hours that overflow - the legacy exception of the hard rules counts them as 0);
@@ -312,6 +313,11 @@ func (w *world) submit(t *rapid.T, n *node, sb coin.SignedBlock, what string) bo
 			wantOK, why = false, "transactions not in fee order (arbitrating node)"
 		}
 	}
+	return wantOK, why
+}
+
+func (w *world) submit(t *rapid.T, n *node, sb coin.SignedBlock, what string) bool {
+	wantOK, why := w.expectAccept(n, &sb)
 	var err error
 	if p := call(func() { err = n.v.ExecuteSignedBlock(sb) }); p != nil {
 		t.Fatalf("%s: ExecuteSignedBlock panicked on %s: %v\n history:\n  %s", n.name, what, p, w.history())
@@ -356,6 +362,33 @@ func canonicalOrder(m *ref.Model, txns []coin.Transaction) bool {
 	return true
 }
 
+// prePool puts a generated subset of a block's transactions into the node's pool just before the block arrives, so that
+// blocks meet pools that know some of their transactions and not others, in every position.
+func (w *world) prePool(t *rapid.T, n *node, txns []coin.Transaction) {
+	if len(txns) < 2 || rapid.IntRange(0, 3).Draw(t, "prepool") == 0 {
+		return
+	}
+	mask := rapid.IntRange(1, (1<<uint(minInt(len(txns), 6)))-2).Draw(t, "prepoolmask")
+	for i := range txns {
+		if i >= 6 || mask&(1<<uint(i)) == 0 {
+			continue
+		}
+		txn := txns[i]
+		admitted, _, _, why := n.m.InjectForeign(txn)
+		var err error
+		if p := call(func() { _, _, err = n.v.InjectForeignTransaction(txn) }); p != nil {
+			t.Fatalf("InjectForeignTransaction panicked: %v\n history:\n  %s", p, w.history())
+		}
+		w.logf("%s.InjectForeign(%s block txn %d, ahead of the block) -> err=%v [model admitted=%v %s]", n.name, shortHash(txref.TxnHash(&txn)), i, err, admitted, why)
+		if admitted != (err == nil) {
+			t.Fatalf("%s: InjectForeignTransaction err=%v but model says admitted=%v (%s)\n history:\n  %s", n.name, err, admitted, why, w.history())
+		}
+		if admitted {
+			w.stats["prepooled_block_txn"]++
+		}
+	}
+}
+
 func (w *world) actDeliver(t *rapid.T) {
 	if len(w.nodes) < 2 || len(w.published) < 2 {
 		t.Skip("nothing to deliver")
@@ -370,6 +403,9 @@ func (w *world) actDeliver(t *rapid.T) {
 		i = minInt(next+1, len(w.published)-1)
 	default:
 		i = minInt(next, len(w.published)-1)
+	}
+	if i == next {
+		w.prePool(t, f, w.published[i].Body.Transactions)
 	}
 	w.submit(t, f, w.published[i], fmt.Sprintf("published[%d]", i))
 }
@@ -583,6 +619,9 @@ func (w *world) actCraft(t *rapid.T) {
 		sb.Sig[rapid.IntRange(0, 64).Draw(t, "sigbyte")] ^= byte(1 << uint(rapid.IntRange(0, 7).Draw(t, "sigbit")))
 	}
 	w.stats["mut:"+mut]++
+	if mut == "none" {
+		w.prePool(t, n, sb.Body.Transactions)
+	}
 	if resign && signer == publisherKey && mut != "none" && mut != "sig_flip" {
 		w.stats["resigned_mutation"]++
 	}
